@@ -153,6 +153,25 @@ def rand_agg(rng, nm, depth, pack, inline, zero_ok=False, packed_kw=False):
     return agg(union, pack, fields, inline, packed_kw)
 
 
+def ptr(to):
+    return dict(k="ptr", to=to)
+
+
+def opaque_shape(rng, nm, pack, depth):
+    """a struct/union with pointer fields to other aggregates (which may point further)"""
+    fields = []
+    for i in range(rng.choice([1, 2, 3, 4])):
+        fields.append(fld(nm(), rand_prim(rng)))
+    for i in range(rng.choice([1, 1, 2, 3]) if depth < 3 else 0):
+        target = opaque_shape(rng, nm, pack, depth + 1) if rng.random() < 0.6 and depth < 2 else \
+            agg(rng.random() < 0.3, pack, [fld(nm(), rand_prim(rng)) for _ in range(rng.choice([1, 2, 3]))])
+        t = ptr(target)
+        if rng.random() < 0.2:
+            t = arr(t, rng.choice([1, 2, 3]))
+        fields.insert(rng.randint(0, len(fields)), fld(nm(), t))
+    return agg(rng.random() < 0.15, pack, fields)
+
+
 def has_flex(node):
     if node["k"] != "agg":
         return False
@@ -253,6 +272,13 @@ def generate(ctx):
     for c in cases:
         if c["stream"] in ("random", "directed"):
             add_mentions(rng, c["top"], 0.25)
+    # a tag declared opaque in one cdef(), USED while opaque, then defined in a later cdef() whose body has pointer
+    # fields to structs/unions first declared in that same cdef() (chains of such pointers too): every aggregate
+    # must be completed (ffi.sizeof/alignof/offsetof answer, and agree with gcc)
+    for i in range(1500 if thorough and ctx.thorough else (120 if thorough else 24)):
+        cases.append(dict(stream="opaque", top=opaque_shape(rng, Namer(), rng.choice([0, 0, 0, 1, 2]), 0),
+                          opaque=dict(use=rng.choice(["typeof", "prototype", "field"]),
+                                      order=rng.choice(["pointees-first", "top-first"]))))
     # the options of the DEFINING cdef() apply, whatever an earlier cdef() that mentioned the tag said
     for kind in ("fwd", "typedef", "ptr"):
         for pdef, pmen, kwd in ((1, 0, True), (0, 1, True), (2, 0, False), (0, 2, False), (4, 1, False), (1, 8, False)):
@@ -277,6 +303,8 @@ def agg_nodes(node, acc=None):
         acc = []
     if node["k"] == "arr":
         agg_nodes(node["item"], acc)
+    elif node["k"] == "ptr":          # pointer to a struct/union: the pointee is declared (and compared) as well
+        agg_nodes(node["to"], acc)
     elif node["k"] == "agg":
         for f in node["fields"]:
             agg_nodes(f["t"], acc)
@@ -299,6 +327,8 @@ def decl(f):
         t = t["item"]
     if t["k"] == "prim":
         base = t["c"]
+    elif t["k"] == "ptr":
+        base = "%s %s *" % (kw(t["to"]), t["to"]["tag"])
     elif t["inline"]:
         base = kw(t) + " " + body(t)
     else:
@@ -314,6 +344,8 @@ def type_string(t):
     while t["k"] == "arr":
         dims += "[]" if t["n"] < 0 else "[%d]" % t["n"]
         t = t["item"]
+    if t["k"] == "ptr":
+        return "%s %s *" % (kw(t["to"]), t["to"]["tag"]) + dims
     return (t["c"] if t["k"] == "prim" else kw(t) + " " + t["tag"]) + dims
 
 
@@ -364,6 +396,9 @@ def coq_type(node, prims):
         return "(WPrim %d %d %s)" % (s, a, "true" if node["c"] in BF_TYPES else "false")
     if node["k"] == "arr":
         return "(WArr %s (%d))" % (coq_type(node["item"], prims), node["n"])
+    if node["k"] == "ptr":
+        s, a = prims["void *"]
+        return "(WPrim %d %d false)" % (s, a)
     fs = "WNil"
     for f in reversed(node["fields"]):
         fs = "(WCons %s %s (%d) %s)" % ("true" if f["name"] else "false", coq_type(f["t"], prims), f["bits"], fs)
@@ -536,7 +571,12 @@ def evaluate_batch(ctx, cases, btag, acc):
             top = c["top"]
             alt = dict(tag=top["tag"], union=top["u"], sflags=c["alt"][0], pack=c["alt"][1],
                        fields=[(f["name"], type_string(f["t"]), f["bits"]) for f in top["fields"]])
-        payload["cases"].append(dict(id=ci, decls=decls, views=vs, alt=alt))
+        opq = None
+        if c.get("opaque"):
+            top = c["top"]
+            opq = dict(c["opaque"], fwd="%s %s;" % (kw(top), top["tag"]), ptr="%s %s *" % (kw(top), top["tag"]),
+                       tag=top["tag"])
+        payload["cases"].append(dict(id=ci, decls=decls, views=vs, alt=alt, opaque=opq))
     out, p = s.run_worker("c01_worker.py", payload, timeout=1800)
     if out is None:
         ctx.violation(cases[0], "cffi worker crashed (rc=%s): %s" % (p.returncode, (p.stderr or p.stdout)[-1500:]))
@@ -569,6 +609,8 @@ def evaluate_batch(ctx, cases, btag, acc):
         ctx.count()
         ff = flat_fields(n)
         repl = dict(stream=c["stream"], top=strip(n))
+        if c.get("opaque"):     # the rejection depends on the whole cdef() sequence: replay the whole case
+            repl = dict(stream=c["stream"], top=strip(c["top"]), opaque=c["opaque"])
         key = finding_key(n, gfacts_by_tag)
         ctx.hist("stream", c["stream"])
         ctx.hist("fields", len(n["fields"]))
@@ -682,6 +724,8 @@ def strip(node):
         return dict(node)
     if node["k"] == "arr":
         return dict(k="arr", item=strip(node["item"]), n=node["n"])
+    if node["k"] == "ptr":
+        return dict(k="ptr", to=strip(node["to"]))
     return dict(k="agg", u=node["u"], pack=node["pack"], inline=node["inline"], packed_kw=node["packed_kw"],
                 mention=node.get("mention"),
                 fields=[dict(name=f["name"], t=strip(f["t"]), bits=f["bits"]) for f in node["fields"]])
@@ -748,6 +792,14 @@ GEN_TEXT = """(* C01 — REGENERATED on every run by tools/props/c01.py regen() 
      false = anywhere else (e.g. where the model type object is first created): the options of
              the cdef() that first MENTIONS the tag would apply. *)
 Definition packed_from_defining_cdef : bool := %s.
+
+(* Second fact, from /repo/src/cffi/api.py FFI._cdef: the loop that re-completes structs which went
+   from opaque to defined is `for tp in finishlist: tp.finish_backend_type(self, finishlist)`, i.e. it
+   iterates the very list that finish_backend_type GROWS (it appends every struct/union whose backend
+   type it had to create lazily, those reached only through pointer fields), so these get completed
+   too.  false = it iterates a copy/other expression: pointer targets first declared in the defining
+   cdef() would stay unrealized ("ctype 'struct T' is of unknown size"). *)
+Definition completion_loop_iterates_growing_list : bool := %s.
 """
 
 
@@ -777,11 +829,35 @@ def packed_fact():
     return bool(top) and top[0] > loops[0]
 
 
+def completion_loop_fact():
+    """-> True/False, or raises ValueError when FFI._cdef no longer has the recorded shape"""
+    import ast
+    tree = ast.parse(open(os.path.join(vlib.REPO, "src/cffi/api.py")).read())
+    fns = [f for c in ast.walk(tree) if isinstance(c, ast.ClassDef) and c.name == "FFI"
+           for f in c.body if isinstance(f, ast.FunctionDef) and f.name == "_cdef"]
+    if len(fns) != 1:
+        raise ValueError("FFI._cdef not found")
+    loops = []
+    for st in ast.walk(fns[0]):
+        if isinstance(st, ast.For):
+            calls = [c for c in ast.walk(st) if isinstance(c, ast.Call) and isinstance(c.func, ast.Attribute)
+                     and c.func.attr == "finish_backend_type"]
+            if calls:
+                loops.append((st, calls))
+    if len(loops) != 1:
+        raise ValueError("%d completion loops in FFI._cdef" % len(loops))
+    st, calls = loops[0]
+    if len(calls) != 1 or len(calls[0].args) != 2 or not isinstance(calls[0].args[1], ast.Name):
+        raise ValueError("unexpected finish_backend_type call")
+    grown = calls[0].args[1].id
+    return isinstance(st.iter, ast.Name) and st.iter.id == grown
+
+
 def regen(ctx):
     path = os.path.join(vlib.COQ, GEN)
     old = open(path).read() if os.path.exists(path) else None
     try:
-        text = GEN_TEXT % ("true" if packed_fact() else "false")
+        text = GEN_TEXT % ("true" if packed_fact() else "false", "true" if completion_loop_fact() else "false")
     except Exception as e:     # fail closed: keep the committed snapshot, the correspondence carries the run
         ctx.translator(GEN, "fallback: %s" % e)
         return
